@@ -331,10 +331,20 @@ pub fn gen_intra_mb(g: &mut Gen, hdr: &Header, detailed: bool, allow_q: bool) ->
             mb.blocks[b].events = gen_events(g, hdr, 1, shape);
         }
     } else {
+        // cheap macroblock: one tape word; DC levels spread over the blocks and two low-frequency
+        // coefficients (horizontal and vertical gradient) so that every sample of the block is
+        // different and any displaced or mis-interpolated prediction from it is visible
         let base = gen_intradc(g);
+        let l = (24 / hdr.quant.max(1) as i16).clamp(1, 8);
         for b in 0..6 {
             let v = base.wrapping_add(b as u8 * 9);
             mb.blocks[b].dc = if v == 0 || v == 128 { 77 } else { v };
+            let s1 = if (base >> (b % 4)) & 1 == 0 { l } else { -l };
+            let s2 = if (base >> ((b + 3) % 7)) & 1 == 0 { -l } else { l };
+            mb.blocks[b].events = vec![
+                Event { run: 0, level: s1, force_escape: false, wide: false },
+                Event { run: 0, level: s2, force_escape: false, wide: false },
+            ];
         }
     }
     mb
